@@ -3,7 +3,7 @@
 # Evaluates seeded changes against the isolated copy (/tmp/evalrepo + /tmp/evalverif, see eval_copy.sh).
 # By default each change is run against the check of its own property + C01 + C02 + the checks of its family;
 # --all runs every registered check.
-export EVAL_REPO=/tmp/evalrepo EVAL_VERIF=/tmp/evalverif
+export EVAL_REPO=${EVAL_REPO:-/tmp/evalrepo} EVAL_VERIF=${EVAL_VERIF:-/tmp/evalverif}
 # --direct: apply each change to /repo itself and run the checks of /verif itself (final confirmation; nothing else may use them meanwhile)
 if [ "${1:-}" = "--direct" ]; then unset EVAL_REPO EVAL_VERIF; shift; fi
 ALL=0; if [ "${1:-}" = "--all" ]; then ALL=1; shift; fi
@@ -25,6 +25,7 @@ for item in "$@"; do
   # second wave: "C06 A" from /tmp/seed2 is stored as C06-C, B as C06-D
   if [ "${SEED_ROOT:-/tmp/seed}" = /tmp/seed2 ]; then export OUT_VARIANT=$(echo $2 | tr AB CD);
   elif [ "${SEED_ROOT:-/tmp/seed}" = /tmp/seed3 ]; then export OUT_VARIANT=$(echo $2 | tr AB EF);
+  elif [ "${SEED_ROOT:-/tmp/seed}" = /tmp/seed4 ]; then export OUT_VARIANT=$(echo $2 | tr AB EF);
   else unset OUT_VARIANT; fi
   echo "=== $1 $2 $(date +%H:%M:%S)"
   if [ $ALL = 1 ]; then /verif/tools/seed_eval.sh $1 $2 2>&1 | tail -3
